@@ -116,6 +116,12 @@ var Methods = []Method{
 	{Name: "/bind2", Cmd: "BIND", Path: "key", AliasOf: "/bind"},
 	{Name: "/unbind2", Cmd: "UNBIND", Path: "key", AliasOf: "/unbind"},
 	{Name: "/noaff"}, // listed in a method entry that has no affinity section: a plain method
+	// more locators that do not resolve (underscores in odd places, empty segments)
+	{Name: "/badloc_", Cmd: "BOUND", Path: "_", Bad: true},
+	{Name: "/badlockey_", Cmd: "UNBIND", Path: "key_", Bad: true},
+	{Name: "/badloc__", Cmd: "BIND", Path: "sub__key", Bad: true},
+	{Name: "/badlocsub_", Cmd: "BOUND", Path: "sub._", Bad: true},
+	{Name: "/badlocdots", Cmd: "BOUND", Path: "key..x", Bad: true},
 }
 
 // Msg is the request/response message shape used by the pool histories.
